@@ -235,6 +235,45 @@ def run(ctx):
                 setattr(misc, fn, o)
         c.cls("names")
 
+    def zero_pattern_problem(pr, rng, isqp, empty_col=False):
+        """the same kind of planted problem with structural zeros in G (optionally one structurally empty column, i.e. a
+        variable that occurs in no inequality), keeping the planted strictly feasible primal and dual points"""
+        d = pr.dims
+        pl_ = getattr(pr, "pl", None) or {}
+        if not (d.N and all(k_ in pl_ for k_ in "xsyz")):
+            return None
+        Gz = None
+        for _ in range(10):
+            mask = np.array([[1.0 if rng.random() < 0.6 else 0.0 for _ in range(pr.n)] for _ in range(d.Np)]).reshape(d.Np, pr.n)
+            if empty_col and pr.n > 1:
+                mask[:, rng.randrange(pr.n)] = 0.0
+            cand = gp.unpack_iso(gp.pack_iso(pr.G, d) * mask, d)
+            if isqp and pr.P is not None:
+                # rank([P; A; G]) = n with the generators' conditioning
+                M = np.vstack([pr.P, pr.A, gp.pack_iso(cand, d)])
+                if np.linalg.svd(M, compute_uv=False)[-1] < 0.2:
+                    continue
+                if pr.A.shape[0] and np.linalg.svd(pr.A, compute_uv=False)[-1] < 0.2:
+                    continue
+                Gz = cand
+                break
+            s1_, _, _ = gp.conditioning(cand, pr.A, d)
+            if s1_ >= 0.2:
+                Gz = cand
+                break
+        if Gz is None:
+            return None
+        cz = -(Gz.T @ cone.symmetrize(pl_["z"], d)) - pr.A.T @ pl_["y"]
+        if isqp:
+            cz = cz - pr.P @ pl_["x"]
+        prZ = gp.Prob(c=cz, G=Gz, h=Gz @ pl_["x"] + cone.symmetrize(pl_["s"], d), A=pr.A, b=pr.b, dims=d, kind=pr.kind)
+        if isqp:
+            prZ.P, prZ.q = pr.P, cz
+        prZ.rankP = getattr(pr, "rankP", None)
+        prZ.pl = dict(pl_)
+        prZ.pl["structurally-sparse"] = True     # stored without explicit zeros
+        return prZ
+
     # ---------------------------------------------------------------- pairs
     def one(c):
         rng = c.rng
@@ -257,6 +296,12 @@ def run(ctx):
         elif t in ("l-as-q1", "l-as-s1", "perm-rows"):
             d0 = gp.gen_dims(rng)
             want_dims = Dims(max(d0.l, 2), d0.q, d0.s)
+        zero_pat_storage = False
+        if t == "storage" and rng.random() < 0.35:
+            # 'l'-only problem (default solver chol2) whose G gets structural zeros and, mostly, an empty column
+            zero_pat_storage = True
+            kind = "feasible"
+            want_dims = Dims(rng.randint(2, 7))
         pr = None
         for _ in range(20):
             if isqp:
@@ -285,6 +330,12 @@ def run(ctx):
             certs.judge_cone_result(c, ctx, pr, solA, OPTS, "base-" + entry, qp=isqp)
         name = t
         prB, alpha, ext, map_x = pr, 1.0, False, None
+        if t == "storage" and zero_pat_storage:
+            prZ = zero_pattern_problem(pr, rng, isqp, empty_col=rng.random() < 0.7)
+            if prZ is not None:
+                pr = prB = prZ
+                solA, excA = solve(entry, pr, rng)
+                ctx.count("storage.zero-pattern-G")
         if t == "storage":
             # every mix of sparse/dense G, A (and P): the KKT factories have separate branches per combination
             combos = [(True, True, True), (True, False, True), (False, True, False), (True, False, False), (True, True, False), (False, False, True)]
